@@ -8,6 +8,7 @@ RULE = ("for each generated (mode, input, script) case the implementation driver
         "48 evenly spaced k for long runs): the call must return exactly the injected source error (Display == marker) — never a value, a "
         "content error or a panic — and is identical to the fault-free run when fewer than k+1 requests are issued. "
         "non-trivial = at least one request position was faulted.")
+CROSS = {'C07': 3000, 'C11': 1500}   # cross streams: samples of neighbouring properties' request streams (outcomes, model <-> implementation)
 EXHAUSTIVE = {"quick": False, "thorough": False}
 EXHAUSTIVE_NOTE = {"quick": "every request position for cases issuing <= 48 requests", "thorough": "same"}
 ASSUMPTIONS = ["the fault is a failing Source::request; slice/bytes/advance cannot fail by the trait's signature"]
